@@ -95,6 +95,8 @@ def state_streams(ctx: Ctx) -> None:
             continue
         rng = Rnd(f"C17-states/{ctx.seed}/{si}")   # per-case generator: the set of cases does not depend on the sharding
         length = rng.randint(1, 14)
+        if si % 500 == 7:
+            length = rng.choice([150, 400, 1200])      # a device dumping the states of hundreds of entities at once / a long-running stream
         msgs: list[Any] = []
         cam_open: dict[int, int] = {}
         for _ in range(length):
